@@ -208,15 +208,23 @@ def r4_formula(chk, f):
     hs = [s for s in hs_all if isinstance(s.value, ast.Call)] if len(hs_all) > 1 else hs_all
     chk.require(len(hs) == 1, f"{f.key}: hint-free assignment of hs_to_add not found")
     fm = hs[0].value
-    args = sorted(norm(a) for a in fm.args) if isinstance(fm, ast.Call) and call_name(fm) == "max" else []
-    ok = args == sorted(["0", "4 - abs(4 - electrons) - bonded"])
-    chk.decide(ok, "C16.R4", f"{f.key}:count-formula", f.where(fm), "max(4 - abs(4 - electrons) - bonded, 0)", f"the hydrogen count is `{short(fm, 70)}`; the statement is max(0, 4 - |4 - electrons| - bonded)")
+    from ..canon import Env, additive_terms
+
+    env16 = Env(f.node)
+    # order-free reading: max(0, S) with S = 4 - abs(4 - electrons) - ceil(bonded valence); naming locals (bonded, unfilled) dissolve
+    fx = env16.expand(fm, keep={"electrons", atomvar})
+    margs = list(fx.args) if isinstance(fx, ast.Call) and call_name(fx) == "max" and len(fx.args) == 2 else []
+    zero = [a_ for a_ in margs if norm(a_) == "0"]
+    rest = [a_ for a_ in margs if norm(a_) != "0"]
+    terms = additive_terms(rest[0]) if len(zero) == 1 and len(rest) == 1 else []
+    ceil_forms = (f"ceil(self.bonded_valence({atomvar}))", f"math.ceil(self.bonded_valence({atomvar}))", f"int(ceil(self.bonded_valence({atomvar})))")
+    ok = len(terms) == 3 and (1, "4") in terms and (-1, "abs(4 - electrons)") in terms and any((-1, c_) in terms for c_ in ceil_forms)
+    chk.decide(ok, "C16.R4", f"{f.key}:count-formula", f.where(fm), "max(4 - abs(4 - electrons) - bonded, 0)", f"the hydrogen count is `{short(fx, 90)}`; the statement is max(0, 4 - |4 - electrons| - bonded)")
     el = [norm(v) for v in asg.get("electrons", []) if isinstance(v, ast.AST)]
     want = f"{atomvar}.valence_electrons - {atomvar}.formal_charge - abs({atomvar}.formal_spin)"
     chk.decide(el == [want], "C16.R4", f"{f.key}:electrons", f.where(), want, f"electrons = {el}; the statement is valence electrons - formal charge - |spin|")
-    bd = [norm(v) for v in asg.get("bonded", []) if isinstance(v, ast.AST)]
-    chk.decide(bd in ([f"ceil(self.bonded_valence({atomvar}))"], [f"math.ceil(self.bonded_valence({atomvar}))"], [f"int(ceil(self.bonded_valence({atomvar})))"]), "C16.R4", f"{f.key}:bonded", f.where(),
-               "bonded = ceil(bonded valence)", f"bonded = {bd}; the statement is ceil(bonded valence)")
+    chk.decide(any((-1, c_) in terms for c_ in ceil_forms), "C16.R4", f"{f.key}:bonded", f.where(),
+               "bonded = ceil(bonded valence)", f"the bonded term of the count is not ceil(bonded valence) of {atomvar}: terms {terms}")
     # the hint wins, and is consumed
     from ..canon import path_conditions, strip_walrus
 
